@@ -116,7 +116,13 @@ def bothConstantG (x y : Opnd) : Bool := x.isConst && y.isConst
 /-- both operands typed after the implicit conversions; `abstain` when two untyped operands meet -/
 def matchG (x y : Opnd) : Res (Opnd × Opnd) :=
   match untypedLike x, untypedLike y with
-  | true, true => if x.rv == .ubool && y.rv == .ubool then .ok (x, y) else .abstain
+  | true, true =>
+    if x.rv == .ubool && y.rv == .ubool then .ok (x, y)
+    -- an untyped boolean value and the constant true / false: both untyped booleans (shared convention: the value of a
+    -- comparison carries the type bool, the literal takes it)
+    else if x.rv == .ubool && y.ty == .untyped .bool then .ok (x, ⟨x.ty, y.rv⟩)
+    else if y.rv == .ubool && x.ty == .untyped .bool then .ok (⟨y.ty, x.rv⟩, y)
+    else .abstain
   | true, false => do let x' ← implicitG x y.ty; .ok (x', y)
   | false, true => do let y' ← implicitG y x.ty; .ok (x, y')
   | false, false => .ok (x, y)
@@ -151,6 +157,8 @@ def orderedG (t : Ty) : Bool := kindIsG (fun k => k.isInteger || k.isFloat || k 
 def cmpG (op : CmpOp) (x y : Opnd) : Res Opnd := do
   if bothConstantG x y then .abstain
   if x.ty.isNil && y.ty.isNil then .err
+  -- nil has no type of its own: it needs a typed operand
+  if (x.ty.isNil && untypedLike y) || (y.ty.isNil && untypedLike x) then .err
   let (x', y') ← matchG x y
   if !(assignableTyG x'.ty y'.ty || assignableTyG y'.ty x'.ty) then .err
   let ok := match op with
@@ -163,7 +171,12 @@ def cmpG (op : CmpOp) (x y : Opnd) : Res Opnd := do
 
 def shiftCheckG (x y : Opnd) : Res Unit := do
   if x.ty.isNil then .err
-  if x.ty.isUntyped then .abstain        -- the type of an untyped shifted operand depends on the context
+  if x.ty.isUntyped then
+    -- an untyped shifted operand must be a constant representable by an integer; which integer type it takes
+    -- then depends on the context of the shift: not described
+    match x.rv with
+    | .const (.int _) | .const (.float _ false) => .abstain
+    | _ => .err
   if x.rv == .ubool then .err
   if !kindIsG Kind.isInteger x.ty then .err
   match y.ty with
@@ -238,7 +251,18 @@ def convG (typ : Ty) (x : Opnd) : Res Opnd := do
          | .iface _ m => pure m.isEmpty
          | _ => pure false)
       else match x.rv with
-        | .typed _ => Res.abstain          -- conversion of a typed constant: constant arithmetic (C03)
+        | .typed vo =>
+          -- a typed constant: a constant conversion between numeric types (the value must be representable by T),
+          -- otherwise the rules for non-constant values (integer to string, identical underlying types, …)
+          (match typ with
+           | .s st =>
+             if st.under.kind.isNumeric then
+               (if !kindIsG Kind.isNumeric v then pure false
+                else match vo with
+                  | some n => pure (representableG (.int n) st.under)
+                  | none => pure (!(st.under.kind.isInteger && kindIsG Kind.isFloat v)))   -- a fractional value is truncated
+             else pure (convertibleTyG v typ)
+           | _ => pure (convertibleTyG v typ))
         | _ => pure (convertibleTyG v typ))
   if ok then .ok ⟨typ, convResultRv typ x⟩ else .err
 
